@@ -19,7 +19,8 @@ OnRec(e) ==
       [] e.e = "samecase" ->
            [s EXCEPT !.viol = Add(Add(s.viol, e.same_success, "VariantsAgreeOnSuccess"), e.same_solution, "VariantsAgreeOnSolution")]
       [] e.e = "jac" ->
-           [s EXCEPT !.viol = Add(Add(s.viol, e.fd_ok, "AssembledJacobianMatchesFiniteDifferences"), e.pattern_stable, "SparsityPatternStable")]
+           [s EXCEPT !.viol = Add(Add(Add(s.viol, e.fd_ok, "AssembledJacobianMatchesFiniteDifferences"), e.pattern_stable, "SparsityPatternStable"),
+                                  e.modes_agree, "AccumulationModesGiveSameJacobian")]
       [] OTHER -> s
 Consume ==
     /\ l <= Len(Ev(tid))
